@@ -14,13 +14,20 @@ def main():
     a = sys.argv[1:]
     j = int(a[a.index('-j') + 1]) if '-j' in a else 6
     ids = [x for x in a if not x.startswith('-') and not x.isdigit()] or sorted(os.listdir(os.path.join(V, 'benign')))
-    bad = 0
+    import json
+    known = json.load(open(os.path.join(V, 'benign', 'KNOWN_NOISY.json')))
+    ids = [i for i in ids if os.path.isdir(os.path.join(V, 'benign', i))]
+    bad = kn = 0
     with cf.ThreadPoolExecutor(j) as ex:
         for i, out in ex.map(one, ids):
             ok = out == 'SILENT'
+            if not ok and i in known:
+                kn += 1
+                print(f'{i:8s} noisy (known limitation: {known[i][:120]}...)')
+                continue
             bad += not ok
             print(f'{i:8s} {"silent" if ok else "NOISY"} {"" if ok else out[:300]}')
-    print(f'{len(ids) - bad}/{len(ids)} silent')
+    print(f'{len(ids) - bad - kn}/{len(ids)} silent, {kn} known-noisy, {bad} unexpected')
     return 1 if bad else 0
 
 
